@@ -452,7 +452,7 @@ def t1(ctx):
     # vacuity: the as-written create_node (insert before type-check) must be refuted
     c = dict(leaves=["b", "x"], lits=["i2"], ctors=["And", "FluentExp"], maxar=2, maxops=4)
     cfg = "SPECIFICATION MCSpec\n" + consts(c["leaves"], c["lits"], c["ctors"], c["maxar"], c["maxops"], cachefirst=True) + "INVARIANT RejectRepeatable\n"
-    res = tlc.run_tlc("MCExprManager", cfg, d, timeout=3000, workers=WORKERS)
+    res = tlc.run_tlc("MCExprManager", cfg, d, timeout=3000, workers=1)  # one worker: deterministic state count
     if res.error:
         raise MachineryError(res.error)
     if res.violated != "RejectRepeatable":
